@@ -52,7 +52,7 @@ def run(ctx):
     crate_stats(chk, u, p)
     chk.rule("C15.a", "SIB bound comparison: Histogram::record and record_many compare with the same operator (sample <= bound, operand order) and both update sum and count; record_many stops at the first matching bound, then runs the cumulative pass over 0..len-1 and merges every local bucket; buckets() zips bounds with counts in order", floor=6)
     chk.rule("C15.b", "TBL matcher precedence: Matcher variants are declared Full, Prefix, Suffix with derived Ord; DistributionBuilder::new sorts overrides by the matcher; get_distribution returns on the first match and consults overrides before global buckets; Matcher::matches = == / starts_with / ends_with; sanitized is variant-preserving and set_buckets_for_metric stores the sanitised matcher", floor=7)
-    chk.rule("C15.d", "SIB rolling window consistency: RollingSummary::add and snapshot expire with the same predicate (begin > now - max_bucket_duration); count is incremented unconditionally; max_bucket_duration = bucket_duration x buckets", floor=4)
+    chk.rule("C15.d", "SIB rolling window consistency: RollingSummary::add and snapshot expire with the same predicate (begin > now - max_bucket_duration); count is incremented unconditionally; max_bucket_duration = bucket_duration x buckets; a sample joins an existing bucket only within its [begin, begin+duration) interval", floor=5)
     chk.trust("sketches_ddsketch (Summary)", "slice::sort_by", "str::{starts_with,ends_with}")
     chk.residue.append("quantile accuracy (sketch arithmetic), equality of record x n and record_many beyond operator/structure agreement, and window-edge numerics are NOT decided; C15.c (TYPE agrees with variant) is decided as C08.f")
 
@@ -245,6 +245,24 @@ def run(ctx):
         if len(preds) == 2:
             chk.ob("C15.d", f"{RS} [add ~ snapshot predicate]", preds["add"] == preds["snapshot"] and preds["add"] is not None, "add and snapshot expire buckets with the same predicate" if preds["add"] == preds["snapshot"] else f"add keeps `{preds['add']}` but snapshot keeps `{preds['snapshot']}`: a bucket can be in the window for one and out of it for the other", add.loc() if add else "")
         if add:
+            b = add.body
+            inl = [c for c in nonforeign_calls(add) if c.fn is add and c.is_("Summary::add") and any(lab == "Some" and sym_is_call(dd, "Iterator::next") for dd, lab in gates(b, c.bb))]
+            okw = len(inl) == 1
+            if okw:
+                g = gates(b, inl[0].bb)
+                lower = upper = False
+                for dd, lab in g:
+                    dd = strip_sym(dd)
+                    if lab is True and sym_is_call(dd, "PartialOrd::ge") and is_param(sym_through(dd[2][0]), 2) and "'begin'" in repr(dd[2][1]):
+                        lower = True
+                    if lab is True and sym_is_call(dd, "PartialOrd::le") and is_param(sym_through(dd[2][1]), 2) and "'begin'" in repr(dd[2][0]):
+                        lower = True
+                    if lab is True and sym_is_call(dd, "PartialOrd::lt") and is_param(sym_through(dd[2][0]), 2) and "Add::add" in repr(dd[2][1]) and "'bucket_duration'" in repr(dd[2][1]):
+                        upper = True
+                    if lab is True and sym_is_call(dd, "PartialOrd::gt") and is_param(sym_through(dd[2][1]), 2) and "Add::add" in repr(dd[2][0]) and "'bucket_duration'" in repr(dd[2][0]):
+                        upper = True
+                okw = lower and upper
+            chk.ob("C15.d", f"{add.path} [bucket membership]", okw, "a sample joins an existing bucket only when begin <= ts < begin + bucket_duration" if okw else "a sample can be merged into an existing bucket without both bounds (begin <= ts and ts < begin + bucket_duration) holding: samples older than the window end up in the newest bucket and the quantiles cover expired data", add.loc())
             cu = field_updates(add, "count")
             ok = len(cu) == 1 and all(add.body.dominates(cu[0][0], r) for r in add.body.return_blocks())
             chk.ob("C15.d", f"{add.path} [count unconditional]", ok, "count += 1 happens before any early return" if ok else "count is not incremented on every path: _count would not cover all samples", add.loc())
